@@ -6,6 +6,8 @@ import IcyVerif.Drv.Font
 import IcyVerif.Drv.IcyDraw
 import IcyVerif.Drv.Palette
 import IcyVerif.Drv.Sauce
+import IcyVerif.Drv.Sixel
+import IcyVerif.Drv.SixelQueue
 import IcyVerif.Drv.Tdf
 import IcyVerif.Drv.Term
 import IcyVerif.Drv.Uni
@@ -22,6 +24,8 @@ def dispatch (line : String) : String :=
   | "icydraw" :: rest => IcyDraw.handle rest
   | "palette" :: rest => Palette.handle rest
   | "sauce" :: rest => Sauce.handle rest
+  | "sixel" :: rest => Sixel.handle rest
+  | "sixelqueue" :: rest => SixelQueue.handle rest
   | "tdf" :: rest => Tdf.handle rest
   | "term" :: rest => Term.handle rest
   | "uni" :: rest => Uni.handle rest
